@@ -6,7 +6,7 @@ from ..link import run_e3, gen_events
 ID = "C11"
 LEVEL = "exploration"
 ENGINE = "E3"
-QUICK_RUNS = 30000
+QUICK_RUNS = 24000
 THOROUGH_RUNS = 3000000
 QUICK_WALL = 100
 THOROUGH_WALL = 900
@@ -36,10 +36,11 @@ def generate(tape, tier="quick"):
         chain.append(gen_adapter(tape, ["linear", "step", "next", "prev"]))
     if tape.chance(1, 5):
         chain.append(gen_adapter(tape, PASS))
-    n_events = tape.weighted([(12, 4), (25, 4), (45, 2), (60, 1)])
+    n_events = tape.weighted([(12, 16), (25, 16), (45, 8), (60, 4), (400, 1)])        # now and then a long history
     # requests beyond the newest publication are refused and must leave the adapter as it was: the consumer then
     # continues from its last answered request (which may lie before the refused one)
-    events = gen_events(tape, 1, n_events, refused_future_keeps_last=True, future_chance=(1, 2))
+    burst = (tape.draw(6), tape.rng_int(90, 160)) if tape.chance(1, 150) else None
+    events = gen_events(tape, 1, n_events, refused_future_keeps_last=True, future_chance=(1, 2), burst=burst)
     src = {"units": tape.choice(["", "m", "km"])}
     if tape.chance(1, 4):
         from ..grids import gen_structured
